@@ -294,6 +294,18 @@ func runCheck(prop, tier string) int {
 			return 2
 		}
 	}
+	// a Post hook may report violations of its own (C18: the property failing on the real transport)
+	if vs, ok := extra["violations"].([]string); ok && len(vs) > 0 {
+		st := &Stats{BoundCompleted: 0, outcomes: map[string]int{}}
+		for _, m := range vs {
+			v := Violation{Scenario: c.Property + "/post-check on the uninstrumented library", Message: m}
+			v.Sig = signature(v.Scenario, m)
+			st.Violations = append(st.Violations, v)
+		}
+		delete(extra, "violations")
+		units = append(units, Unit{Name: c.Property + "/post-check on the uninstrumented library"})
+		results = append(results, st)
+	}
 	return report(c, tier, seed, units, results, time.Since(start), extra)
 }
 
